@@ -88,8 +88,13 @@ def gen_case(task, i):
                 lines.append(f"WallLights[{_pylit(s)}].On = d0.Setting")
             elif k < 0.85 and s:
                 lines.append(f"db.Setting = Batteries[{_pylit(s)}].Charge.Sum")
-            elif s:
+            elif k < 0.93 and s:
                 lines.append(f"x{len(lines)} = HASH({_pylit(s)})\ndb.Mode = x{len(lines)} + d0.Setting")
+            elif s:
+                # constants built from HASH/STR by operators (folded at compile time)
+                op = r.choice(["+ 1", "* 3", "% 7", "- 0.5", "< 5", "** 2"])
+                fn = r.choice(["HASH", "HASH", "STR"])
+                lines.append(f"db.Setting = {fn}({_pylit(s[:6] if fn == 'STR' else s)}) {op}")
         src = HEADER + "\n".join(lines) + "\n"
     else:
         ms = _enum_members()[i * 8 : i * 8 + 8]
